@@ -79,6 +79,14 @@ prop('C04', 'model_checking',
      'virtual clock by rebinding saml2_tophat.time_util.time/datetime; unsigned responses; quick tier replays a seeded quarter',
      'TLA+ scenario spec + TLC + exhaustive replay', 'section 5 C04')
 
+prop('C06', 'model_checking',
+     'SPStatus.tla models signature / version / destination / status / assertion steps and the documented table second-level '
+     'status code -> error class (21 rows); TLC checks the pipeline against the contract (no identity unless Success and '
+     'Version 2.0; specific class per standard code, StatusError without one, a generic error for unknown codes) on all '
+     'scenarios; scenarios are rendered with really signed assertions and responses and replayed into the SP (requests into '
+     'Server.parse_authn_request), exception class names compared with the contract', TOOL_NOTE,
+     'TLA+ scenario spec + TLC + replay', 'section 5 C06')
+
 
 def main():
     props = [json.loads(l) for l in open(os.path.join(VERIF, 'properties.jsonl'))]
